@@ -23,7 +23,7 @@ var Spec = engine.Spec{
 	Rule:      "case = one constructed document (+ indent); distinct state = canonical document key; oracle = reference triple (nodes with kind, typed triples, roots) and listed attributes equal after write->read, idempotent on a second pass",
 	Assume: []string{
 		"identifier alphabet: valid SPDX idstrings without SPDXRef- prefix; text alphabet {'', x, unicode, 'a b'} plus NOASSERTION/NONE where the convention applies; no surrounding whitespace (the writer trims copyright text on purpose)",
-		"attributes compared are the ones the statement lists; file_name, comment, summary, description, source info, attribution, licence lists are not judged",
+		"copyright text is compared after trimming surrounding whitespace (the writer trims it deliberately); attributes compared are the ones the statement lists; file_name, comment, summary, description, source info, attribution, licence lists are not judged",
 	},
 }
 
@@ -86,7 +86,8 @@ func attrs(n *sbom.Node, in bool) map[string]string {
 	a["name"] = n.Name
 	a["license_concluded"] = sentinel(n.LicenseConcluded)
 	a["license_comments"] = n.LicenseComments
-	a["copyright"] = sentinel(n.Copyright)
+	// the writer trims surrounding whitespace of the copyright text on purpose (SPDX text field); compared trimmed
+	a["copyright"] = sentinel(strings.TrimSpace(n.Copyright))
 	var hs []string
 	for k, v := range n.Hashes {
 		if in && sbom.HashAlgorithm(k).ToSPDX() == "" {
@@ -361,7 +362,7 @@ type dev struct {
 func menu() []dev {
 	var m []dev
 	add := func(slot, name string, f func(p, f *sbom.Node)) { m = append(m, dev{Name: slot + "=" + name, Slot: slot, Do: f}) }
-	txt := []string{"x", "Ünï cödé ✓ 日本", "a b", "q\"uo\\te <&> {}[]:,"}
+	txt := []string{"x", "Ünï cödé ✓ 日本", "a b", "q\"uo\\te <&> {}[]:,", "  lead", "trail  ", "multi\nline", "tab\tx", "SPDXRef-x", "NOASSERTION-ish", "x (y)", "a:b", "%41+%20", strings.Repeat("long", 300)}
 	str := func(slot string, vals []string, set func(n *sbom.Node, v string), file bool) {
 		for _, v := range vals {
 			v := v
